@@ -134,5 +134,21 @@ fixed("C13", "ffd52c5", ["c13:panic-recovered:compression-negotiated:runtime-err
 fixed("C15", "8cf2a9b", ["c15:compressed:over-limit-message-delivered", "c15:compressed:message-of-exactly-limit-size-refused"],
       "MessageLengthLimit vs. permessage-deflate: message inflating to limit+1..cap delivered; message inflating to exactly the limit refused when the pooled capacity equals the limit")
 
+# ---- end to end (C10, C14) and what they found in the core
+known("C10", "c10:close-dictated:large-response-truncated",
+      "a response of 1 MiB or more to a close-dictating request (HTTP/1.0 without keep-alive, or Connection: close) whose client reads late is cut: ServerProcessor.flushResponse closes the connection while the rest of the response is still in nbio's send queue, and Close drops the queue (nbhttp/processor.go, comment 'the data may still in the send queue'). A repair needs a drain-then-close facility in the core connection plus a bounded wait and a stop of further parsing in nbhttp (plain, TLS and both client sides): not a small patch. Scope of the signature: close-dictating exchange, declared body >= 1 MiB, received body shorter than declared and a correct prefix of it")
+fixed("C10", "76c895f", ["c10:keepalive:connection-closed-early"],
+      "an epoll event already fetched for a connection that is closed before the event is handled is applied to the connection that got the same descriptor number meanwhile: a fresh keep-alive connection is closed with EOF (close-churn cases; 274 of 82139 fresh connections in a 25 s stand-alone run)")
+fixed("C10", "48448c0", ["c10:client:callback-got-response-of-an-already-failed-request"],
+      "ClientConn: after Close (or a failure) and Reset, a response of the old connection whose handling was queued already is handed to the callback of the next request")
+fixed("C10", "7434971", ["c10:client:callback-never:after-panic-recovered-in-do"],
+      "ClientConn.Do recovers a panic (llib's TLS 1.3 client handshake raises one) but never invokes the callback it queued before; Client.Do never releases the pooled connection")
+fixed("C14", "b8f625e", ["c14:transferred:message-callback-before-open-callback-returned", "c14:transferred-oneshot:message-callback-before-open-callback-returned"],
+      "UpgradeAndTransferConnToPoller: the connection is readable before Upgrade has called the open handler; a frame sent right after the 101 response has its message callback run before / while the open callback runs")
+fixed("C14", "7c78d18", ["c14:transferred-oneshot:close-callback-overlaps-message-callback", "c14:transferred-oneshot:message-callback-after-close-callback"],
+      "EPOLLONESHOT, connection transferred to the poller: message callbacks run directly in the poller goroutine (SyncExecutor) while the close callback goes through the connection's job queue; Close from inside OnMessage lets OnClose run while OnMessage is still running")
+fixed("C18", "add344e", ["c18:core:tcp:stop-hang", "c18:core:unix:stop-hang", "c18:core:tcp:shutdown-hang", "c18:core:unix:shutdown-hang", "c18:http:mixed:shutdown-hang"],
+      "Close of an nbio.Conn before / while it is handed to AddConn (nbhttp's shutdown does this to connections that are just being added): no close notification, but the open is still announced and counted; Stop waits forever (history element close_vs_add_conn; first seen as a rare c18:http:mixed:shutdown-hang)")
+
 json.dump(F, open("/verif/known_findings.json", "w"), indent=1)
 print("wrote %d entries (%d known)" % (len(F), sum(1 for f in F if f["status"] == "known")))
